@@ -799,6 +799,9 @@ def _predicates(model, rep):
         return Obj(mcls, {"p": pts, "facets": "FACETS", "t": "CELLS",
                           "nvertices": Poly.sym("nvertices"),
                           "boundary_facets": PyFunc(lambda a, k, n: "BF"),
+                          # audited exactly below (facet-midpoints)
+                          "_facet_midpoints": PyFunc(lambda a, k, n: T((
+                              "mean", 1, T(("gather", "FACETS"))))),
                           "boundary_nodes": PyFunc(lambda a, k, n: "BN")})
     cases = [("facets_satisfying", "FACETS", "BF"),
              ("elements_satisfying", "CELLS", None),
@@ -853,14 +856,94 @@ def _predicates(model, rep):
                f"are mid-side or unused points without vertex DOFs)"
                + (" and then be restricted to the boundary" if bo else ""),
                fn.lineno, path)
+    # padded facets: a reference cell may store triangular facets in a
+    # four-row table (a vertex repeated).  The midpoints handed to a facet
+    # predicate are computed exactly (skv/nlite) on every reference cell's
+    # own facet table: they must be the centroids of the *distinct*
+    # vertices - a plain mean gives (2a + b + c) / 4 for a padded facet.
+    from .. import nlite
+    from ..nlite import NArr
+    from ..elements import load_refdoms
+    rds = load_refdoms(model)
+    fs = mcls.methods["facets_satisfying"]
+    helper = mcls.methods.get("_facet_midpoints")
+    uses_helper = helper is not None and any(
+        isinstance(x, ast.Call) and src(x.func) == "self._facet_midpoints"
+        for x in ast.walk(fs.node))
+    plain = any(isinstance(x, ast.Call) and isinstance(x.func, ast.Attribute)
+                and x.func.attr == "mean" and "self.facets" in src(
+                    x.func.value) for x in ast.walk(fs.node))
+    if not uses_helper and not plain:
+        raise AnalysisError("Mesh.facets_satisfying: midpoint expression "
+                            "not recognised")
+    nrd = 0
+    for c in model.all_classes():
+        if not c.path.startswith("skfem/mesh/") or mcls not in c.mro() or \
+                c.find_method("facets_satisfying") is not fs:
+            continue
+        ea = c.attrs.get("elem")
+        if ea is None:
+            continue
+        ecl = [x for x in model.all_classes() if x.name == src(ea)
+               and x.path.startswith("skfem/element/")]
+        rda = ecl[0].find_attr("refdom") if ecl else None
+        rd = rds.get(src(rda[1])) if rda else None
+        if rd is None or not rd.facets or rd.dim < 2 or \
+                c.find_method("_facet_midpoints") is not helper:
+            continue
+        want = [tuple(sum(Fraction(rd.p[v][d]) for v in set(f))
+                      / len(set(f)) for d in range(rd.dim))
+                for f in rd.facets]
+        if uses_helper:
+            P_ = NArr([[Fraction(pt[d]) for pt in rd.p]
+                       for d in range(rd.dim)])
+            F_ = NArr([[f[r] for f in rd.facets]
+                       for r in range(len(rd.facets[0]))])
+            try:
+                r = Interp(model, call_hook=nlite.hook).call(
+                    helper, [], {},
+                    self_obj=Obj(mcls, {"p": P_, "facets": F_}))
+                got = [tuple(Fraction(r.data[d][k]) for d in range(rd.dim))
+                       for k in range(len(rd.facets))]
+            except (Unsupported, Raised, AttributeError, IndexError,
+                    TypeError) as e:
+                raise AnalysisError(f"Mesh._facet_midpoints on {rd.name}: "
+                                    f"{e}")
+        else:
+            got = [tuple(sum(Fraction(rd.p[v][d]) for v in f) / len(f)
+                         for d in range(rd.dim)) for f in rd.facets]
+        nrd += 1
+        bad = [k for k in range(len(want)) if got[k] != want[k]]
+        cons = f"{c.name}.facets_satisfying:facet-midpoints"
+        _v(rep, R4, not bad, cons,
+           f"the {len(want)} facet midpoints of the reference cell "
+           f"{rd.name} are the centroids of the facets' distinct vertices",
+           "Mesh.facets_satisfying",
+           f"{c.name}: the midpoint handed to a facet predicate for facet "
+           f"{rd.facets[bad[0]] if bad else ''} of {rd.name} is "
+           f"{tuple(map(str, got[bad[0]])) if bad else ''}, the centroid is "
+           f"{tuple(map(str, want[bad[0]])) if bad else ''}"
+           + (" - the facet is stored padded with a repeated vertex, which "
+              "the plain mean counts twice: the predicate selects other "
+              "facets than the equivalent index array, depending on which "
+              "vertex is repeated" if bad and len(set(
+                  rd.facets[bad[0]])) < len(rd.facets[bad[0]]) else ""),
+           fs.lineno, path)
+    if nrd < 5:
+        raise AnalysisError(f"facet midpoints audited on {nrd} mesh classes "
+                            f"only")
     # tagging keeps index arrays as given, evaluates predicates, and merges
     for meth, field, finder in (("with_boundaries", "_boundaries",
                                  "facets_satisfying"),
                                 ("with_subdomains", "_subdomains",
                                  "elements_satisfying")):
         fn = mcls.methods[meth]
+        other = "elements_satisfying" if finder[0] == "f" else \
+            "facets_satisfying"
         obj = Obj(mcls, {field: {"old": "OLD", "b": "STALE"},
-                         finder: PyFunc(lambda a, k, n: ("found", a, k))})
+                         finder: PyFunc(lambda a, k, n: ("found", a, k)),
+                         other: PyFunc(lambda a, k, n: ("other-kind", a,
+                                                        k))})
         try:
             r = Interp(model, call_hook=hook).call(
                 fn, [{"a": "ARRAY", "b": test}], {}, self_obj=obj)
@@ -1031,6 +1114,13 @@ _D = "skfem/assembly/dofs.py"
 _AB = "skfem/assembly/basis/abstract_basis.py"
 _M = "skfem/mesh/mesh.py"
 MUTANTS = [
+    ("facet midpoints as the plain mean of the table rows",
+     (_M, "        midp = self._facet_midpoints()",
+      "        midp = self.p[:, self.facets].mean(axis=1)"), "C07-R4"),
+    ("facet midpoint weights divided by the number of rows",
+     (_M, "        return (self.p[:, f] * w).sum(axis=1) / w.sum(axis=0)",
+      "        return (self.p[:, f] * w).sum(axis=1) / f.shape[0]"),
+     "C07-R4"),
     ("default side tags compared with the default relative tolerance",
      (_M, "                                                             dmin,\n"
       "                                                             rtol=0.,\n",
@@ -1154,7 +1244,7 @@ MUTANTS = [
       "            return np.arange(self.nfacets)"), "C07-R4"),
     ("facet predicate evaluated at the first vertex instead of the "
      "midpoint",
-     (_M, "        midp = self.p[:, self.facets].mean(axis=1)\n        "
+     (_M, "        midp = self._facet_midpoints()\n        "
       "facets = np.nonzero(test(midp))[0].astype(np.int32)",
       "        midp = self.p[:, self.facets[0]]\n        facets = "
       "np.nonzero(test(midp))[0].astype(np.int32)"), "C07-R4"),
@@ -1172,6 +1262,9 @@ MUTANTS = [
       "dtype=np.int32)"), "C07-R4"),
 ]
 TWINS = [
+    ("facet midpoint weights compared the other way round",
+     (_M, "            w[i] = (f[i] != f[:i]).all(axis=0)",
+      "            w[i] = (f[:i] != f[i]).all(axis=0)")),
     ("default side tags with a tolerance of a thousandth of the cell size",
      (_M, "        atol = np.min(self.params()) / 1e2\n",
       "        atol = np.min(self.params()) / 1e3\n")),
